@@ -272,7 +272,8 @@ fn cmd_replay(path: &str) -> i32 {
     let build = kv.get("build").unwrap_or("simdbg").to_string();
     if build == "miri" && !cfg!(miri) {
         let target = kv.get("miri_target").map(|t| t.to_string());
-        let (code, out) = run_miri_target(target.as_deref(), &["replay", path], None);
+        let heavy = kv.get("property") == Some("C02m");
+        let (code, out) = run_miri_full(target.as_deref(), heavy, &["replay", path], None);
         println!("{out}");
         // under Miri any abnormal end (UB report or a model violation) reproduces the finding
         return if code == 0 { 0 } else { 1 };
@@ -346,12 +347,27 @@ fn run_miri(args: &[&str], log: Option<&str>) -> (i32, String) {
 const CROSS_TARGETS: [&str; 2] = ["s390x-unknown-linux-gnu", "i686-unknown-linux-gnu"];
 
 fn run_miri_target(target: Option<&str>, args: &[&str], log: Option<&str>) -> (i32, String) {
+    run_miri_full(target, false, args, log)
+}
+
+/// `heavy`: the marathon component. It runs with the dev profile (overflow checks on: a plain `+`
+/// on a position counter then panics where a release build wraps) and without Miri's borrow
+/// tracking and validation, whose cost per refill is proportional to the buffer size (4 GiB would
+/// take hours); out-of-bounds and uninitialised accesses are still detected.
+fn run_miri_full(target: Option<&str>, heavy: bool, args: &[&str], log: Option<&str>) -> (i32, String) {
     #[allow(non_snake_case)]
     let VD = verif_dir();
     let mut cmd = Command::new("cargo");
-    cmd.current_dir(format!("{VD}/sim"))
-        .env("CARGO_NET_OFFLINE", "true")
-        .args(["+nightly", "miri", "run", "--offline", "--release", "--quiet"]);
+    cmd.current_dir(format!("{VD}/sim")).env("CARGO_NET_OFFLINE", "true");
+    if heavy {
+        cmd.env(
+            "MIRIFLAGS",
+            "-Zmiri-disable-stacked-borrows -Zmiri-disable-data-race-detector -Zmiri-disable-validation",
+        );
+        cmd.args(["+nightly", "miri", "run", "--offline", "--quiet"]);
+    } else {
+        cmd.args(["+nightly", "miri", "run", "--offline", "--release", "--quiet"]);
+    }
     if let Some(t) = target {
         cmd.args(["--target", t]);
     }
@@ -397,7 +413,8 @@ fn run_miri_parts(tier: Tier, seed: u64) -> MiriOutcome {
 fn cross_plan(property: &str) -> Vec<(&'static str, u64, u64)> {
     match property {
         "C01" => vec![("C01", 6, 4)],
-        "C02" => vec![("C02", 10, 4)],
+        // C02m: the marathon on the 32-bit target only (position() wraps there after 2^32 bytes)
+        "C02" => vec![("C02", 10, 4), ("C02m", 1, 1)],
         "C08" => vec![("C08", 8, 2)],
         "C09" => vec![("C09r", 20, 2), ("C09p", 6, 2)],
         "C11" => vec![("C11", 16, 2)],
@@ -438,6 +455,11 @@ fn run_miri_plan(
     };
     let mut jobs = vec![];
     for &(comp, per_job, njobs) in plan {
+        if comp == "C02m" && target != Some("i686-unknown-linux-gnu") {
+            continue;
+        }
+        // the marathon is one run whatever the tier
+        let scale = if comp == "C02m" { 1 } else { scale };
         for j in 0..njobs {
             jobs.push(MiriJob {
                 comp,
@@ -454,8 +476,9 @@ fn run_miri_plan(
                 let vd = VD.clone();
                 sc.spawn(move || {
                     let log = format!("{vd}/target/parts/miri-{tname}-{}-{}.log", j.comp, j.lo);
-                    let (code, text) = run_miri_target(
+                    let (code, text) = run_miri_full(
                         target,
+                        j.comp == "C02m",
                         &[
                             "miri-batch",
                             j.comp,
@@ -584,7 +607,7 @@ fn report_miri_findings(
             continue;
         }
         // replay under Miri in a fresh process
-        let (code, _text) = run_miri_target(target, &["replay", &path], None);
+        let (code, _text) = run_miri_full(target, comp == "C02m", &["replay", &path], None);
         if code == 0 {
             eprintln!("harness error: Miri finding {comp} run {run} did not reproduce from {path}");
             return Err(2);
